@@ -42,6 +42,7 @@ import (
 	"github.com/inbucket/inbucket/v3/pkg/stringutil"
 	"github.com/inbucket/inbucket/v3/pkg/verifhook"
 	"github.com/rs/zerolog"
+	"verifharness/asmsys"
 	"verifharness/vh"
 )
 
@@ -383,6 +384,9 @@ func runStart(in []string) []string {
 }
 
 func exec(kind string, in []string) []string {
+	if asmsys.Is(kind) {
+		return asmsys.Exec(kind, in)
+	}
 	switch kind {
 	case "scan":
 		return runScan(in)
@@ -393,6 +397,9 @@ func exec(kind string, in []string) []string {
 }
 
 func main() {
+	if asmsys.ChildMain() {
+		return
+	}
 	zerolog.SetGlobalLevel(zerolog.Disabled)
 	vh.Main(gen, exec)
 }
